@@ -87,7 +87,8 @@ func parsePot(text string) (entries []potEntry, header string, hasHeader bool) {
 type xCall struct {
 	text    string // the call expression
 	expect  *potEntry
-	litOffs int // offset of the msgid literal inside text (for the reference position)
+	litOffs int     // offset of the msgid literal inside text (for the reference position)
+	more    []xCall // what OTHER keywords of the same name extract from this call (text unused)
 }
 
 var xStrings = []string{"hello", "it's", `say "hi"`, `back\slash`, "a b", "é中", "{brace}", "$", "x", "Save", "%d file", "%d files", "semi;colon", "q?", "Dear user,\rwelcome", "tab\there", "nl\nx"}
@@ -185,10 +186,12 @@ func genXCall(r *Rng, kws []xKw, delim string, depth int) xCall {
 	pre := callee + "("
 	text := pre
 	off := -1
+	argOffs := make([]int, nargs)
 	for i, a := range args {
 		if i > 0 {
 			text += ", "
 		}
+		argOffs[i] = len([]rune(text))
 		if i == kw.id-1 {
 			off = len([]rune(text))
 		}
@@ -196,6 +199,28 @@ func genXCall(r *Rng, kws []xKw, delim string, depth int) xCall {
 	}
 	text += ")"
 	c := xCall{text: text, litOffs: off}
+	for _, k2 := range kws {
+		if k2.name != kw.name || k2 == kw {
+			continue
+		}
+		n2 := k2.id
+		if k2.ctx > n2 {
+			n2 = k2.ctx
+		}
+		if k2.id2 > n2 {
+			n2 = k2.id2
+		}
+		if nargs >= n2 && lit[k2.id-1] && vals[k2.id-1] != "" {
+			e := &potEntry{id: vals[k2.id-1]}
+			if k2.ctx > 0 && lit[k2.ctx-1] {
+				e.ctxt = vals[k2.ctx-1]
+			}
+			if k2.id2 > 0 && lit[k2.id2-1] {
+				e.plural = vals[k2.id2-1]
+			}
+			c.more = append(c.more, xCall{expect: e, litOffs: argOffs[k2.id-1]})
+		}
+	}
 	if extract && kw.id-1 < nargs && lit[kw.id-1] && vals[kw.id-1] != "" {
 		e := &potEntry{id: vals[kw.id-1]}
 		if kw.ctx > 0 && lit[kw.ctx-1] {
@@ -217,6 +242,10 @@ func runXtplCase(r *Rng, out *outFiles, work string, idx int) {
 	if custom {
 		kws = []xKw{{"tr", 0, 1, 0}, {"trn", 0, 1, 2}, {"pgettext", 1, 2, 0}, {"second", 0, 2, 0}}
 		kwSpec = "tr;trn:1,2;pgettext:1c,2;second:2"
+	} else if r.Chance(20) { // one function name listed twice: every specification of the name applies to every call
+		custom = true
+		kws = []xKw{{"dup", 1, 2, 0}, {"dup", 0, 1, 0}, {"tr", 0, 1, 0}}
+		kwSpec = "dup:1c,2;dup:1;tr"
 	} else if r.Chance(25) { // the context position written AFTER the msgid / plural positions
 		custom = true
 		kws = []xKw{{"ctr", 2, 1, 0}, {"nctr", 3, 1, 2}, {"tr", 0, 1, 0}, {"rev", 0, 2, 1}}
@@ -292,17 +321,29 @@ func runXtplCase(r *Rng, out *outFiles, work string, idx int) {
 			}
 			open := lead + "<p " + ap + attr + "=" + delim
 			lineText := open + val.String() + delim + ">z</p>"
-			for _, p := range ps {
-				if p.c.expect != nil {
-					col := len([]rune(open)) + p.off + p.c.litOffs + 1
-					ref := fmt.Sprintf("%s:%d:%d", name, ln+1, col)
-					key := p.c.expect.ctxt + "\x04" + p.c.expect.id
-					if e, ok := expect[key]; ok {
-						e.refs = append(e.refs, ref)
-					} else {
-						cp := *p.c.expect
-						cp.refs = []string{ref}
-						expect[key] = &cp
+			for _, p0 := range ps {
+				all := []struct {
+					c   xCall
+					off int
+				}{{p0.c, p0.off}}
+				for _, m := range p0.c.more {
+					all = append(all, struct {
+						c   xCall
+						off int
+					}{m, p0.off})
+				}
+				for _, p := range all {
+					if p.c.expect != nil {
+						col := len([]rune(open)) + p.off + p.c.litOffs + 1
+						ref := fmt.Sprintf("%s:%d:%d", name, ln+1, col)
+						key := p.c.expect.ctxt + "\x04" + p.c.expect.id
+						if e, ok := expect[key]; ok {
+							e.refs = append(e.refs, ref)
+						} else {
+							cp := *p.c.expect
+							cp.refs = []string{ref}
+							expect[key] = &cp
+						}
 					}
 				}
 			}
